@@ -1,4 +1,5 @@
-/- Driver for C07: one scope script per line (events `E:a,b` enter with binders, `L` leave, `D:x` declare, `U:x` use);
+/- Driver for C07: one scope script per line (events `E:a,b` enter with binders, `L` leave, `D:x` declare, `U:x` use,
+   `X:x` take the innermost scope's latest declaration of x out of its frame again);
    prints whether the script is well nested and, per use, the declaration ordinal the declarative semantics (`specRun`)
    and the frame-store machine (`implRun`) bind it to. -/
 import UtapModel.Model.ScopeScript
@@ -13,6 +14,7 @@ def parseEv (tok : String) : Option Ev :=
     some (.enter (if rest == "" then [] else rest.splitOn ","))
   else if tok.startsWith "D:" then some (.declare (tok.drop 2).toString)
   else if tok.startsWith "U:" then some (.use (tok.drop 2).toString)
+  else if tok.startsWith "X:" then some (.remove (tok.drop 2).toString)
   else none
 
 def showB (l : List (Option Nat)) : String :=
